@@ -175,13 +175,16 @@ Proof.
 Qed.
 
 (** Established: Cease is written to the tracked connection, then it is closed *)
-Lemma stop_cease c w : Good c w -> w_state w = StEstablished ->
+Lemma stop_cease c w : Good c w ->
+  (w_state w = StOpenSent \/ w_state w = StOpenConfirm \/ w_state w = StEstablished) ->
   c_closing (get_conn c w) = false -> w_out w = [] ->
   w_out (peering_manual_stop w) = [OLose c; OWrite c (WNotif c_ERR_CEASE 0 [])].
 Proof.
   intros [Hp Hc] Hs Hcl Ho.
   unfold peering_manual_stop, F_manual_stop, fsmU_manual_stop, fsm_manual_stop. cbv beta iota zeta.
-  unfold st_is. rewrite Hs. cbn [bst_eqb].
+  assert (Hin : st_in w [StOpenSent; StOpenConfirm; StEstablished] = true)
+    by (unfold st_in; destruct Hs as [-> | [-> | ->]]; reflexivity).
+  rewrite Hin. clear Hin.
   set (w1 := p_send_notification c_ERR_CEASE 0 [] w).
   assert (G1 : Good c w1) by (apply (ok_send_notif _ (Good_prims c)); split; auto).
   assert (O1 : w_out w1 = [OWrite c (WNotif c_ERR_CEASE 0 [])]).
